@@ -8,4 +8,4 @@ git -C /repo apply /verif/refactors/$id/patch.diff || exit 2
 for p in $props; do
   ./check.sh $p quick 2>&1 | grep -E "\[(VIOLATION|undecided|floor)\]|^VIOLATION|unresolved" | cut -c1-${CUT:-400}
 done
-git -C /repo checkout -- .
+git -C /repo checkout -- . ; git -C /repo clean -fdq -- . 2>/dev/null
